@@ -173,4 +173,17 @@ OwnerOK == \A b \in Bufs : buf[b].owner > 0 => st[buf[b].owner].used /\ st[buf[b
 
 DumpEdge == PrintT("EDGE " \o ToJson(View) \o "\t" \o ToJson([act' EXCEPT !.before = 0]) \o "\t" \o ToJson(View'))
 DumpStep == PrintT("OUT " \o ToJson([i |-> nops', a |-> [act' EXCEPT !.before = 0]]))
+(***************************************************************************)
+(* `act` (the step's observed outcome) is not part of the VIEW: as a state  *)
+(* predicate an invariant over act would be evaluated only for the first     *)
+(* representative TLC finds of each view class.  The action forms below are  *)
+(* evaluated for EVERY transition TLC generates; the configurations that use *)
+(* a VIEW check these.                                                       *)
+(***************************************************************************)
+NoPanicA == [][NoPanic']_vars
+CloneEqualA == [][CloneEqual']_vars
+IsolationA == [][Isolation']_vars
+NoRemnantA == [][NoRemnant']_vars
+NoDirtA == [][NoDirt']_vars
+
 =============================================================================
